@@ -706,4 +706,110 @@ example :
      | .ok (st, bi) => Build.toJson st bi "enc"
      | .error e => .error e) = .error .incompleteOp := rfl
 
+/-! ## 12. at the level of program commands
+
+The clauses above are about the builder methods; a program command evaluates its references and then
+calls the method, so the same error is what `step` — and `runProgram`, which stops there — reports. -/
+
+theorem builderOf_getB (st : BuildState) (b : String) (p : BKind → Bool) (bi : Nat) (r : BRec)
+    (h : st.builderOf b p = .ok (bi, r)) : st.getB bi = .ok r := by
+  unfold BuildState.builderOf at h
+  cases hv : st.bvar b with
+  | error e => simp [hv] at h
+  | ok bi' =>
+    simp only [hv] at h
+    unfold BuildState.liveB at h
+    cases hg : st.getB bi' with
+    | error e => simp [hg] at h
+    | ok r' =>
+      simp only [hg] at h
+      by_cases hsp : r'.hid ∈ st.spent
+      · simp [hsp] at h
+      · simp only [List.contains_iff_mem, hsp, if_false] at h
+        by_cases hp : p r'.kind = true
+        · simp only [hp, if_true] at h
+          injection h with h
+          obtain ⟨rfl, rfl⟩ := Prod.mk.inj h
+          exact hg
+        · simp [hp] at h
+
+/-- a raising command ends the program: its error is the last outcome -/
+theorem run_stops_at_error (enc : String) (st : BuildState) (c : Cmd) (cs : List Cmd) (e : BuildErr)
+    (h : step enc st c = .error e) :
+    run enc st (c :: cs) = .error e ∧ (runProgram enc st (c :: cs)).1.length = 1 := by
+  simp [run, runProgram, h]
+
+theorem step_add_case_out_of_range (enc : String) (st : BuildState) (c nb : String) (k : Int) (ci : Nat) (r : BRec)
+    (hb : st.builderOf c (isKind .conditional) = .ok (ci, r)) (hk : (r.cases.length : Int) ≤ k) :
+    step enc st (.addCase c nb k) = .error .conditionalError := by
+  simp [step, hb, retB, case_out_of_range st ci r k (builderOf_getB st c _ ci r hb) hk]
+
+theorem step_exit_with_unbuilt_cases (enc : String) (st : BuildState) (c : String) (ci : Nat) (r : BRec)
+    (hb : st.builderOf c (isKind .conditional) = .ok (ci, r)) (x : Nat × Bool) (hx : x ∈ r.cases) (hf : x.2 = false) :
+    step enc st (.exitConditional c) = .error .conditionalError := by
+  have := (exit_with_unbuilt_cases st ci r (builderOf_getB st c _ ci r hb)).mpr ⟨x, hx, hf⟩
+  simp [step, hb, this]
+
+theorem evalCWs_keeps_ints (st : BuildState) : ∀ (args : List CWRef) (ws : List ComWire) (i : Nat),
+    evalCWs st args = .ok ws → CWRef.tracked i ∈ args → ComWire.idx i ∈ ws := by
+  intro args
+  induction args with
+  | nil => intro ws i _ hi; cases hi
+  | cons a rest ih =>
+    intro ws i h hi
+    unfold evalCWs at h
+    cases ha : evalCW st a with
+    | error e => simp [ha] at h
+    | ok x =>
+      simp only [ha] at h
+      cases hr : evalCWs st rest with
+      | error e => simp [hr] at h
+      | ok xs =>
+        simp only [hr] at h
+        injection h with h; subst h
+        cases hi with
+        | head => simp [evalCW] at ha; subst ha; exact List.mem_cons_self
+        | tail _ hi => exact List.mem_cons_of_mem _ (ih xs i hr hi)
+
+/-- `b.add(op(…, i, …))` on a builder that is not a `TrackedDfg`: `ValueError`, whatever else the command
+    holds (its wire references evaluate). -/
+theorem step_int_wire_in_untracked (enc : String) (st : BuildState) (b n : String) (op : Op) (args : List CWRef)
+    (md : Serial.Meta) (bi : Nat) (r : BRec) (ws : List ComWire) (i : Nat)
+    (hb : st.builderOf b BKind.isDf = .ok (bi, r)) (hk : r.kind ≠ .tracked)
+    (he : evalCWs st args = .ok ws) (hi : CWRef.tracked i ∈ args) :
+    step enc st (.add b n op args md) = .error .valueError := by
+  have h1 := int_wire_in_untracked st bi r op ws md (builderOf_getB st b _ bi r hb) hk i
+    (evalCWs_keeps_ints st args ws i he hi)
+  simp [step, hb, he, retN, h1]
+
+/-- `untrack_wire(i)` / `tracked_wire(i)` of an index that is not tracked: `IndexError`. -/
+theorem step_untracked_index (enc : String) (st : BuildState) (b : String) (i : Nat) (bi : Nat) (r : BRec)
+    (hb : st.builderOf b (isKind .tracked) = .ok (bi, r))
+    (hu : r.tracked[i]? = none ∨ r.tracked[i]? = some none) :
+    step enc st (.untrackWire b i) = .error .indexError ∧ step enc st (.trackedWire b i) = .error .indexError := by
+  have hg := builderOf_getB st b _ bi r hb
+  simp [step, hb, untrack_untracked_index st bi r i hg hu, (untracked_index r.tracked i).mpr hu]
+
+/-- `to_json` of a builder whose HUGR holds an incomplete operation first in serialisation order. -/
+theorem step_serialize_incomplete (enc : String) (st : BuildState) (b : String) (bi : Nat) (r : BRec) (s : St)
+    (pre post : List Nat) (i : Nat) (d : Store.NodeData Op Serial.Meta) (p : Nat)
+    (hb : st.builderOfRO b (fun _ => true) = .ok (bi, r)) (hg : st.getB bi = .ok r)
+    (hs : st.getHugr r.hid = .ok s)
+    (ho : Store.hierarchyOrder s = .ok (pre ++ i :: post))
+    (hpre : ∀ j ∈ pre, ∃ x, Serial.serialNode (Serial.opsCodec 0) s (pre ++ i :: post) j = .ok x)
+    (hd : Store.getNode s i = .ok d) (hp : Serial.rekey (pre ++ i :: post) (d.parent.getD i) = .ok p)
+    (hinc : Op.encOp d.op p = .error .incompleteOp) :
+    step enc st (.toJson b) = .error .incompleteOp := by
+  simp [step, hb, serialize_incomplete st bi r s enc pre post i d p hg hs ho hpre hd hp hinc]
+
+/-- non-vacuity at program level: `Dfg(); to_json` stops with `IncompleteOp` at the second command -/
+example : (match (runProgram "enc" {} [.newDfg "d" [], .toJson "d"]).1 with
+    | [.ok _ _, .err e] => some e
+    | _ => none) = some .incompleteOp := rfl
+
+/-- … and `Conditional(UnitSum(2), []); add_case(2)` with `ConditionalError` -/
+example : (match (runProgram "enc" {} [.newConditional "c" (.unit 2) [], .addCase "c" "k" 2]).1 with
+    | [.ok _ _, .err e] => some e
+    | _ => none) = some .conditionalError := rfl
+
 end HugrVerif.Props.C13
